@@ -138,6 +138,24 @@ func d12(tb model.TableSpec, path string, routable, listed map[string]bool) bool
 func checkC17(c RoutingCase) (vs []*Violation) {
 	st := stats.For("C17", "TestC17")
 	recA, recB := harness.NewRecorder(), harness.NewRecorder()
+	// the service that gets a route after the first probe round has dynamic routes enabled (the
+	// documented way to change routes of a registered service)
+	latePick := [2]int{-1, -1}
+	if k := int(c.Extra["late_route"]); k > 0 {
+		var cands [][2]int
+		for si, sv := range c.Table.Services {
+			for ri := range sv.Routes {
+				cands = append(cands, [2]int{si, ri})
+			}
+		}
+		if len(cands) > 0 {
+			latePick = cands[(k-1)%len(cands)]
+			tb := c.Table
+			tb.Services = append([]model.ServiceSpec{}, tb.Services...)
+			tb.Services[latePick[0]].Dynamic = true
+			c.Table = tb
+		}
+	}
 	optA := &harness.Options{Router: c.Router}
 	plain, p1 := buildWith(c.Table, optA, recA, true)
 	// a fifth of the cases use the package-level DefaultContainer and restful.OPTIONSFilter()
@@ -227,24 +245,16 @@ func checkC17(c RoutingCase) (vs []*Violation) {
 	probeAll()
 	// a route table is not frozen by having been asked: a route added to (or removed from) a
 	// registered WebService changes what is routable, and both Allow headers with it
-	if k := int(c.Extra["late_route"]); k > 0 && len(vs) == 0 {
-		var cands [][2]int
-		for si, sv := range c.Table.Services {
-			for ri := range sv.Routes {
-				cands = append(cands, [2]int{si, ri})
-			}
-		}
-		if len(cands) > 0 && len(optA.Services) == len(c.Table.Services) && len(optB.Services) == len(c.Table.Services) {
-			pick := cands[(k-1)%len(cands)]
-			late := c.Table.Services[pick[0]].Routes[pick[1]]
-			late.ID, late.Method, late.Conds = late.ID+"late", "REPORT", nil
-			optA.Services[pick[0]].Route(harness.NewRoute(optA.Services[pick[0]], late, recA, nil))
-			optB.Services[pick[0]].Route(harness.NewRoute(optB.Services[pick[0]], late, recB, nil))
-			methods = model.SortedSet(append(methods, "REPORT"))
-			phase = " (after a REPORT route was added to a registered service)"
-			labels = append(labels, "route_added_after_first_probes")
-			probeAll()
-		}
+	if latePick[0] >= 0 && len(vs) == 0 && len(optA.Services) == len(c.Table.Services) && len(optB.Services) == len(c.Table.Services) {
+		pick := latePick
+		late := c.Table.Services[pick[0]].Routes[pick[1]]
+		late.ID, late.Method, late.Conds = late.ID+"late", "REPORT", nil
+		optA.Services[pick[0]].Route(harness.NewRoute(optA.Services[pick[0]], late, recA, nil))
+		optB.Services[pick[0]].Route(harness.NewRoute(optB.Services[pick[0]], late, recB, nil))
+		methods = model.SortedSet(append(methods, "REPORT"))
+		phase = " (after a REPORT route was added to a registered service)"
+		labels = append(labels, "route_added_after_first_probes")
+		probeAll()
 	}
 	st.Case(c, nontrivial, labels...)
 	return vs
